@@ -29,12 +29,13 @@ from ..core import pool_map
 
 MODULE = "codec/Serialize.tla"
 DEVS = ["Float32EncodedAsInt", "NarrowScalarRaises", "ArrayDtypeLost", "EmptyArrayShapeLost",
-        "RatioZeroUpdatesRaises", "ChoiceAccumOrderLost", "CurrentRepNotSerialized"]
+        "RatioZeroUpdatesRaises", "ChoiceAccumOrderLost", "CurrentRepNotSerialized",
+        "NpBoolRaises", "FileNameFailsForNonVectorArray"]
 HYPS = ["SetAsList", "MarksDropped", "IndexDropped", "ParentDropped", "NumUpdatesDropped", "FileNameRounds",
         "ZeroUpdatesSkipsState", "StaleNameCache"]
 LAWS = ["TypeOK", "EncodeTotal", "DecodeTotal", "RoundTripEq", "RoundTripFaithful", "DoubleRoundTrip",
         "MarksPreserved", "ChildLaw", "StatsLaw", "FileNameInjective", "FileNameFunctional", "FinePoolOk",
-        "SaveNameIsCurrent", "SavedFilesRoundTrip"]
+        "SaveNameIsCurrent", "SavedFilesRoundTrip", "FileNameTotal"]
 FAMILIES = ["value", "params", "result", "results", "fields", "savehist", "fname"]
 # flag -> (family in which TLC must find it, law that must be violated)
 DEV_EXPECT = {
@@ -45,6 +46,8 @@ DEV_EXPECT = {
     "RatioZeroUpdatesRaises": ("result", "DecodeTotal"),
     "ChoiceAccumOrderLost": ("result", "RoundTripEq"),
     "CurrentRepNotSerialized": ("results", "RoundTripEq"),
+    "NpBoolRaises": ("value", "EncodeTotal"),
+    "FileNameFailsForNonVectorArray": ("results", "FileNameTotal"),
 }
 HYP_EXPECT = {
     "SetAsList": ("value", "RoundTripEq"),
@@ -64,6 +67,7 @@ NPTYPES = {"NpInt8": np.int8, "NpInt16": np.int16, "NpInt32": np.int32, "NpInt64
            "NpFloat16": np.float16, "NpFloat32": np.float32, "NpFloat64": np.float64}
 INT_T = {"PyInt", "NpInt8", "NpInt16", "NpInt32", "NpInt64", "NpUInt8", "NpUInt16", "NpUInt32", "NpUInt64"}
 FLOAT_T = {"PyFloat", "NpFloat16", "NpFloat32", "NpFloat64"}
+BOOL_T = {"PyBool", "NpBool"}
 
 
 def model(family, tier, part=0, nparts=1, dev=(), hyp=(), emit=True, laws=LAWS):
@@ -91,6 +95,10 @@ def to_py(v):
         return v["s"]
     if t == "None":
         return None
+    if t == "PyBool":
+        return bool(v["n"])
+    if t == "NpBool":
+        return np.bool_(bool(v["n"]))
     if t == "PyInt":
         return int(v["n"])
     if t == "PyFloat":
@@ -102,7 +110,7 @@ def to_py(v):
     if t == "Set":
         return set(to_py(x) for x in v["elems"])
     if t == "Array":
-        kind_int = np.dtype(v["dtype"]).kind in "iu"
+        kind_int = np.dtype(v["dtype"]).kind in "iub"
         flat = [x[0] if kind_int else fval(x[0], x[1]) for x in v["data"]]
         return np.array(flat, dtype=v["dtype"]).reshape(tuple(v["shape"]))
     raise ValueError(t)
@@ -128,6 +136,13 @@ def cmp_value(obj, v, where, out, exact_types):
     elif t == "None":
         if obj is not None:
             out.append(("value", f"{where}: expected None, got {obj!r}"))
+    elif t in BOOL_T:
+        if not isinstance(obj, (bool, np.bool_)):
+            out.append(("kind", f"{where}: expected a bool {bool(v['n'])}, got {type(obj).__name__} {obj!r}"))
+        elif bool(obj) != bool(v["n"]):
+            out.append(("value", f"{where}: expected {bool(v['n'])}, got {obj!r}"))
+        elif exact_types and type(obj) is not (bool if t == "PyBool" else np.bool_):
+            out.append(("type", f"{where}: expected {t}, got {type(obj).__name__}"))
     elif t in INT_T or t in FLOAT_T:
         isint = isinstance(obj, (int, np.integer)) and not isinstance(obj, (bool, np.bool_))
         isflt = isinstance(obj, (float, np.floating))
@@ -347,7 +362,9 @@ def eq_both(a, b, what, out, defined=True):
 
 
 def enc_exc_sig(ex):
-    return "enc-typeerror" if isinstance(ex, TypeError) else "enc-raise"
+    if isinstance(ex, TypeError):
+        return "enc-typeerror-bool" if "type bool" in str(ex) else "enc-typeerror"
+    return "enc-raise"
 
 
 def dec_exc_sig(ex):
@@ -630,7 +647,20 @@ def run_results_case(c, wd):
     # --- file name: the template is a function of the parameter values
     tmpl = os.path.join(wd, c["template"])
     expname = os.path.join(wd, c["fname"])
-    got = sr.get_filename_with_replaced_params(tmpl if os.path.splitext(tmpl)[-1] else tmpl + ".pickle")
+    full = tmpl if os.path.splitext(tmpl)[-1] else tmpl + ".pickle"
+    try:
+        got = sr.get_filename_with_replaced_params(full)
+    except Exception as ex:  # FileNameTotal: every supported parameter set has a file name
+        out.append(("fname-raise", f"get_filename_with_replaced_params({c['template']!r}) raised {type(ex).__name__}: {ex}"))
+        sr.original_filename = to_py(S["orig"])  # the string routes still apply
+        json_cycle(sr, SimulationResults, c, out, lambda o, w: cmp_results_fields(o, c["back"], w, out, False))
+        return out
+    if c.get("relname"):
+        # the text of a list / set / None / mixed-range vector is not spelled out by the model: deterministic (rel)
+        if got != sr.get_filename_with_replaced_params(full) or os.path.dirname(got) != wd:
+            out.append(("fname", f"(rel) file name {got!r} is not a deterministic name inside the directory"))
+        expname = got
+        c = dict(c, fname=os.path.basename(got))
     if got != expname:
         out.append(("fname", f"file name {os.path.basename(got)!r} != {c['fname']!r}"))
     # --- through a file, twice
@@ -722,7 +752,7 @@ def run_fname_case(c, wd):
             out.append(("fname", f"file name for {v['t']} {v['n']}/{v['d']} {v['s']!r} is {got!r}, expected {exp!r}"))
     if (c["n1"] != c["n2"]) != (names[0] != names[1]):
         out.append(("fname", f"names {names} : distinctness differs from the model ({c['n1']!r}, {c['n2']!r})"))
-    if c["n1"] != c["n2"]:  # end to end: both saved through the one template, each loaded back
+    if c["n1"] != c["n2"] and sum(c["id"]) % 3 == 0:  # end to end (a third of the pairs; every fine group does it too)
         objs = [tagged_results(SimulationParameters.create({"num": to_py(v)}), i) for i, v in enumerate((c["v1"], c["v2"]))]
         save_all_load_back(objs, os.path.join(wd, "e2e", c["template"]), out, "pair through one template")
     return out
@@ -806,6 +836,8 @@ def run_savehist_case(c, wd):
                     sr[name][-1].update(to_py(o["val"]))
             elif o["op"] == "cur":
                 sr.current_rep = o["val"]["n"]
+            elif o["op"] == "mergeall":
+                sr.merge_all_results(copy.deepcopy(sr))
             elif o["op"] == "reload":
                 sr = SimulationResults.load_from_file(last)
         except Exception as ex:
@@ -871,7 +903,7 @@ def save_all_load_back(objs, tmpl, out, what):
             continue
         same = (l == o) and (o == l) and l.current_rep == o.current_rep and l.params.unpack_index == o.params.unpack_index \
             and l["ber"][0].get_result() == o["ber"][0].get_result() \
-            and type(l.params["num"]) is not bool and l.params["num"] == o.params["num"]
+            and l.params["num"] == o.params["num"]
         if not same:
             out.append(("fname", f"{what}: file {os.path.basename(fn)!r} was written for value {o.params['num']!r} "
                                  f"(current_rep {o.current_rep}) but holds value {l.params['num']!r} (current_rep {l.current_rep})"))
@@ -882,7 +914,7 @@ def fine_values(g):
     from fractions import Fraction as F
     vals = []
     for k in g["ks"]:
-        x = F(g["n"], g["d"]) * F(10) ** g["b10"] + k * F(2) ** g["e2"] * F(10) ** g["e10"]
+        x = F(g["n"], g["d"]) * F(10) ** g["b10"] * F(2) ** g.get("b2", 0) + k * F(2) ** g["e2"] * F(10) ** g["e10"]
         t = g["t"]
         if t in INT_T:
             if x.denominator != 1:
@@ -918,13 +950,83 @@ def run_fine_case(c, wd):
     return out
 
 
-RUNNERS = {"savehist": run_savehist_case, "fields": run_fields_case, "fine": run_fine_case, "value": run_params_case, "params": run_params_case, "result": run_result_case,
+def _norm_sets(p):
+    if isinstance(p, dict):
+        if "_is_set" in p and isinstance(p.get("data"), list):
+            return {"_is_set": True, "data": sorted((repr(x) for x in p["data"]))}
+        return {k: _norm_sets(v) for k, v in p.items()}
+    if isinstance(p, list):
+        return [_norm_sets(x) for x in p]
+    return p
+
+
+def _same_number(a, b, is_int):
+    """bit-for-bit the same value, and the same int / float kind"""
+    ka = isinstance(a, (int, np.integer)) and not isinstance(a, (bool, np.bool_))
+    if ka != is_int or (not is_int and not isinstance(a, (float, np.floating))):
+        return False
+    return int(a) == int(b) if is_int else (float(a) == float(b) and math.copysign(1, float(a)) == math.copysign(1, float(b)))
+
+
+def run_limit_case(c, wd):
+    """values at the limits of a width (rel): scalar parameter, list, set and array members, JSON twice and pickle"""
+    from pyphysim.simulations.parameters import SimulationParameters
+    g = c["group"]
+    vals = fine_values(g)
+    is_int = g["t"] in INT_T
+    if any(a == b for i, a in enumerate(vals) for b in vals[i + 1:]):
+        return [("harness", f"premise of the limit group {g} fails: members are not different machine numbers: {vals!r}")]
+    out = []
+    d = {"x": vals[-1], "l": list(vals), "s": set(vals)}
+    dt = None if g["t"] == "PyInt" and any(abs(v) >= 2 ** 63 for v in vals) else \
+        ("int64" if g["t"] == "PyInt" else "float64" if g["t"] == "PyFloat" else str(np.dtype(NPTYPES[g["t"]])))
+    if dt:
+        d["a"] = np.array(vals, dtype=dt)
+    obj = SimulationParameters.create(d)
+
+    def compare(o, where, exact):
+        if not _same_number(o["x"], vals[-1], is_int):
+            out.append(("value", f"{where}: RoundTripExact/KindPreserved: x = {o['x']!r}, saved {vals[-1]!r}"))
+        if type(o["l"]) is not list or len(o["l"]) != len(vals) or not all(_same_number(a, b, is_int) for a, b in zip(o["l"], vals)):
+            out.append(("value", f"{where}: RoundTripExact: list {o['l']!r}, saved {vals!r}"))
+        if type(o["s"]) is not set or o["s"] != set(vals) or not all(_same_number(a, a, is_int) for a in o["s"]):
+            out.append(("value", f"{where}: RoundTripExact: set {o['s']!r}, saved {set(vals)!r}"))
+        if dt and not (isinstance(o["a"], np.ndarray) and str(o["a"].dtype) == dt and o["a"].shape == (len(vals),)
+                       and all(_same_number(a, b, is_int) for a, b in zip(o["a"].tolist(), np.array(vals, dtype=dt).tolist()))):
+            out.append(("value", f"{where}: RoundTripExact: array {o['a']!r}, saved {vals!r} as {dt}"))
+        if exact and type(o["x"]) is not type(vals[-1]):
+            out.append(("type", f"{where}: PickleExact: type {type(o['x']).__name__}, saved {type(vals[-1]).__name__}"))
+    try:
+        s1 = obj.to_json()
+        o2 = SimulationParameters.from_json(s1)
+        s2 = o2.to_json()
+        o3 = SimulationParameters.from_json(s2)
+    except Exception as ex:
+        return [("raise", f"JSON round trip of {vals!r} raised {type(ex).__name__}: {ex}")]
+    compare(o2, "reloaded", False)
+    compare(o3, "reloaded twice", False)
+    if _norm_sets(json.loads(s1)) != _norm_sets(json.loads(s2)):
+        out.append(("second:tree", f"TextIdempotent: second to_json differs: {s2[:200]} vs {s1[:200]}"))
+    try:
+        f1 = os.path.join(wd, "lim.pickle")
+        obj.save_to_pickled_file(f1)
+        o4 = SimulationParameters.load_from_pickled_file(f1)
+    except Exception as ex:
+        return out + [("pickle", f"pickle round trip raised {type(ex).__name__}: {ex}")]
+    compare(o4, "unpickled", True)
+    compare(obj, "QueryIsPure: the saved object after all calls", True)
+    return out
+
+
+RUNNERS = {"limit": run_limit_case, "savehist": run_savehist_case, "fields": run_fields_case, "fine": run_fine_case, "value": run_params_case, "params": run_params_case, "result": run_result_case,
            "results": run_results_case, "fname": run_fname_case}
 
 # signature of a mismatch -> finding it may belong to (it must also be in the case's `rel` set,
 # the argument class TLC computed, except for the np.int finding that belongs to C06)
 SIG2FINDING = {
     "enc-typeerror": "NarrowScalarRaises",
+    "enc-typeerror-bool": "NpBoolRaises",
+    "fname-raise": "FileNameFailsForNonVectorArray",
     "tree-f2i": "Float32EncodedAsInt",
     "dec-zerodiv": "RatioZeroUpdatesRaises",
     "vlist-order": "ChoiceAccumOrderLost",
@@ -965,12 +1067,14 @@ def judge(ctx, c, mism):
         return
     rel = set(c.get("rel", []))
     primary = set()
+    def cand(sg):
+        f = SIG2FINDING.get(sg, ())
+        f = (f,) if isinstance(f, str) else f
+        return [x for x in f if x in rel or x == "ChoiceUpdateRaises"]
     for sg, _ in mism:
-        f = SIG2FINDING.get(sg)
-        if f and (f in rel or f == "ChoiceUpdateRaises"):
-            primary.add(f)
+        primary.update(cand(sg)[:1])
     unexplained = [(sg, w) for sg, w in mism
-                   if not (SIG2FINDING.get(sg) in primary or (primary and derived(sg)))]
+                   if not (set(cand(sg)) & primary or (primary and derived(sg)))]
     if any(sg == "harness" for sg, _ in mism):
         raise tlc.TlcError(f"harness exception in case {key}: {[w for s, w in mism if s == 'harness'][0]}")
     small = {k: v for k, v in c.items() if k not in ("tree2",)}
@@ -980,14 +1084,14 @@ def judge(ctx, c, mism):
                       {"case": c, "mismatches": mism[:20]})
     else:
         for f in sorted(primary):
-            w = [x for s, x in mism if SIG2FINDING.get(s) == f][0]
+            w = [x for s, x in mism if f in cand(s)][0]
             ctx.finding(f, f"{c['kind']} case {list(c['id'])}: {w}", {"case": c, "mismatches": mism[:20]})
 
 
 def parts_for(family, tier):
     if tier == "thorough":
         return {"value": 8, "params": 4, "result": 4, "results": 12, "fields": 2, "savehist": 6, "fname": 2}[family]
-    return {"value": 2, "params": 1, "result": 2, "results": 3, "fields": 2, "savehist": 1, "fname": 1}[family]
+    return {"value": 1, "params": 1, "result": 1, "results": 2, "fields": 1, "savehist": 1, "fname": 1}[family]
 
 
 def run(ctx):
@@ -1049,10 +1153,10 @@ def run(ctx):
         if len(set(ids)) != len(ids):
             raise tlc.TlcError("two different emitted cases share an identity")
         acts = {"value": "ValueCase", "params": "ParamsCase", "result": "ResultCase", "results": "ResultsCase",
-                "fields": "FieldsCase", "savehist": "SaveHistCase", "fname": "FileNameCase", "fine": "FineCase"}
+                "fields": "FieldsCase", "savehist": "SaveHistCase", "fname": "FileNameCase", "fine": "FineCase", "limit": "LimitCase"}
         for c in cases:  # every emitted case is one firing of its action
             ctx.actions[acts[c["kind"]]] = ctx.actions.get(acts[c["kind"]], 0) + 1
-        ctx.require_actions(["ValueCase", "ParamsCase", "ResultCase", "ResultsCase", "FieldsCase", "SaveHistCase", "FileNameCase", "FineCase"])
+        ctx.require_actions(["ValueCase", "ParamsCase", "ResultCase", "ResultsCase", "FieldsCase", "SaveHistCase", "FileNameCase", "FineCase", "LimitCase"])
         for flag, law, r in druns:
             if r.violated != law:
                 raise tlc.TlcError(f"flag {flag}: TLC was expected to refute {law}, it reported {r.violated}")
